@@ -1088,8 +1088,10 @@ class Linter:
             fname=fname,
             config=config,
         )
-        # Get rules as appropriate
-        rule_pack = self.get_rulepack(config=config)
+        # Get rules as appropriate. NOTE: Use the config of the parsed string,
+        # which includes any inline `-- sqlfluff:` directives of the file, as
+        # linting by path does.
+        rule_pack = self.get_rulepack(config=parsed.config)
         # Lint the file and return the LintedFile
         return self.lint_parsed(
             parsed,
